@@ -50,13 +50,13 @@ Definition run (v : val) : val :=
       match choose_base (unVBs sv) (unVBs cl) with
       | Ok b => VL [VN 0; enc_base b] | KeyError => VL [VN 1] | Crash e => VL [VN 2; VN e] end
   | VL [VN 2; t] =>
-      match parse (un_node t) with
+      match parse_hello (un_node t) with
       | Ok (s, caps) => VL [VN 0; enc_sid s; VL (map VB caps)] | KeyError => VL [VN 1] | Crash e => VL [VN 2; VN e] end
   | VL [VN 3; VN k; VN priv; extra] =>
       let l := profile_caps (un_profile k priv) (unVBs extra) in
       VL [VL (map VB l); VL (map VB (map fst (caps_of l)))]
   | VL [VN 4; VN fixed; cl; VL labels] =>
-      match Negotiate.run (negb (fixed =? 0)) (unVBs cl) init (map un_label labels) with
+      match run_labels (negb (fixed =? 0)) (unVBs cl) init (map un_label labels) with
       | None => VL []
       | Some s => VL [VL (map (fun fm => VL [enc_base (fst fm); VN (snd fm)]) (s_wire s)); enc_main (s_main s);
                       enc_sid (s_sid s); match s_caps s with None => VL [] | Some l => VL [VL (map VB l)] end;
